@@ -28,6 +28,11 @@ if DEBUG:
     logger.setLevel(logging.DEBUG)
 
 
+def _missing(value: Any) -> bool:
+    """No time given: None or an empty string (the epoch, a falsy numpy datetime64, is a time)"""
+    return value is None or (isinstance(value, str) and not value.strip())
+
+
 class TimeKeeper:
     """Time utilities for LADiM
 
@@ -73,10 +78,10 @@ class TimeKeeper:
 
         logger.info("Initiating the timekeeper")
         self.modules = modules
-        if not start:
+        if _missing(start):
             logger.critical("Missing start time")
             raise SystemExit(3)
-        if not stop:
+        if _missing(stop):
             logger.critical("Missinc stop time")
             raise SystemExit(3)
         if not dt:
@@ -106,7 +111,7 @@ class TimeKeeper:
         self.min_time = min(self.start_time, self.stop_time)  # type: ignore
         self.max_time = max(self.start_time, self.stop_time)  # type: ignore
 
-        if reference:
+        if not _missing(reference):
             self.reference_time = np.datetime64(reference, "s")
         else:
             self.reference_time = self.min_time
